@@ -257,9 +257,10 @@ def build_config(proj, R, quote=True, extra=None):
     """Serialise the configuration (TOML or INI) with current_version = proj.cur_text"""
     extra = extra or {}
     fmt = proj.fmt
+    head = [proj.meta["cfg_comment"]] if proj.meta.get("cfg_comment") else []
     if fmt == "toml":
         sect = "tool.bumpver" if proj.cfg_name == "pyproject.toml" else "bumpver"
-        lines = [f"[{sect}]", f"current_version = {toml_str(proj.cur_text)}",
+        lines = head + [f"[{sect}]", f"current_version = {toml_str(proj.cur_text)}",
                  f"version_pattern = {toml_str(proj.vp)}"]
         for k, v in extra.items():
             lines.append(f"{k} = {toml_str(v) if isinstance(v, str) else str(v).lower()}")
@@ -271,7 +272,7 @@ def build_config(proj, R, quote=True, extra=None):
             lines.append("]")
         return "\n".join(lines) + "\n"
     q = '"' if quote else ""
-    lines = ["[bumpver]", f"current_version = {q}{proj.cur_text}{q}", f"version_pattern = {q}{proj.vp}{q}"]
+    lines = head + ["[bumpver]", f"current_version = {q}{proj.cur_text}{q}", f"version_pattern = {q}{proj.vp}{q}"]
     for k, v in extra.items():
         lines.append(f"{k} = {v}")
     lines += ["", "[bumpver:file_patterns]"]
@@ -368,9 +369,15 @@ def gen_project(R, bvmods, today, *, eol_choices=("\n",), filler="plain", legacy
         per_file[fn] = pats
     explicit_cfg = R.random() < 0.5
     selfp = cfg_self_pattern(proj, quote)
+    extra_selfp = None
     if explicit_cfg:
         pos = R.randint(0, len(entries))
-        entries.insert(pos, (proj.cfg_name, [selfp]))
+        own = [selfp]
+        if R.random() < 0.4:
+            # the config file lists itself with a second pattern (a comment line carrying the version)
+            extra_selfp = "released as {version} !"
+            own = [selfp, extra_selfp] if R.random() < 0.5 else [extra_selfp, selfp]
+        entries.insert(pos, (proj.cfg_name, own))
     if fmt == "cfg" and any(("=" in k or ":" in k) for k, _ in entries):
         return None, "ini-key"
     proj.entries = entries
@@ -481,6 +488,7 @@ def gen_project(R, bvmods, today, *, eol_choices=("\n",), filler="plain", legacy
         proj.plants.extend(plants)
 
     # config file + its own planted line
+    proj.meta["cfg_comment"] = f"# released as {proj.cur_text} !" if extra_selfp else None
     cfg_text = build_config(proj, R, quote=quote, extra=commit_cfg)
     proj.meta["cfg_extra"] = commit_cfg
     proj.files[proj.cfg_name] = cfg_text
@@ -492,6 +500,12 @@ def gen_project(R, bvmods, today, *, eol_choices=("\n",), filler="plain", legacy
     norm = normalize(bvmods, vp, selfp, legacy)
     proj.plants.append(Plant(file=proj.cfg_name, start=idx, end=idx + len(needle), kind="version", raw=selfp,
                              norm=norm, ast=ref.parse_pattern(norm), text=needle))
+    if extra_selfp:
+        needle2 = f"released as {proj.cur_text} !"
+        idx2 = cfg_text.find(needle2)
+        norm2 = normalize(bvmods, vp, extra_selfp, legacy)
+        proj.plants.append(Plant(file=proj.cfg_name, start=idx2, end=idx2 + len(needle2), kind="version", raw=extra_selfp,
+                                 norm=norm2, ast=ref.parse_pattern(norm2), text=needle2))
     proj.eol[proj.cfg_name] = "LF"
     # every rendered occurrence must be non-empty (bumpver ignores empty matches)
     if any(pl.end == pl.start for pl in proj.plants):
@@ -510,7 +524,7 @@ def gen_project(R, bvmods, today, *, eol_choices=("\n",), filler="plain", legacy
     why = prove_unambiguous(proj)
     if why:
         return None, "layout:" + why.split(":")[0]
-    proj.meta = {"repeated_occurrences": proj.meta.get("repeated_occurrences", 0), "cfg_extra": commit_cfg, "bom_files": proj.meta.get("bom_files", []), "n_files": nf, "fmt": fmt, "explicit_cfg": explicit_cfg, "quote": quote,
+    proj.meta = {"cfg_comment": proj.meta.get("cfg_comment"), "repeated_occurrences": proj.meta.get("repeated_occurrences", 0), "cfg_extra": commit_cfg, "bom_files": proj.meta.get("bom_files", []), "n_files": nf, "fmt": fmt, "explicit_cfg": explicit_cfg, "quote": quote,
                  "shared_lines": sum(1 for _ in _shared_lines(proj)), "kinds": sorted({p.kind for p in proj.plants}),
                  "eols": sorted(set(proj.eol.values())), "globs": sum(1 for k, _ in entries if "*" in k or "?" in k)}
     return proj, None
